@@ -426,3 +426,75 @@ Proof.
   - replace ((IZR (Z.of_nat (i + 1)) * - 360 / n - IZR (Z.of_nat i) * - 360 / n) / 2) with (- (180 / n)) by (rewrite Nat2Z.inj_add, plus_IZR; cbn [Z.of_nat]; field; exact Hn0).
     rewrite dcos_neg. fold h. unfold R'. field. lra.
 Qed.
+
+(* ---------------- C07: the rounded rectangle lies in its box, touches its four sides, corner arcs of the radius ---------------- *)
+Lemma quarter_trig t : 0 <= t <= 90 -> 0 <= dsin t <= 1 /\ 0 <= dcos t <= 1.
+Proof.
+  intros [H0 H1]. rewrite dsin_def, dcos_def. pose proof PI_RGT_0 as Hpi.
+  assert (0 <= t * PI / 180 <= PI / 2) by (split; nra).
+  repeat split.
+  - apply sin_ge_0; lra.
+  - apply SIN_bound.
+  - apply cos_ge_0; lra.
+  - apply COS_bound.
+Qed.
+(* point i of a quarter arc: the start turned clockwise by t = i*90/segments, 0 <= t <= 90 *)
+Lemma quarter_arc_nth (start : P2) (segments : Z) pts i : (1 <= segments)%Z -> arc start 90 segments = Some pts -> (i < length pts)%nat ->
+  length pts = Z.to_nat (segments + 1) /\
+  exists c s, 0 <= c <= 1 /\ 0 <= s <= 1 /\ s * s + c * c = 1 /\
+              nth i pts start = Pt2 (x2 start * c + y2 start * s) (y2 start * c - x2 start * s).
+Proof.
+  intros Hs Ha Hi. assert (Hs0 : (0 <= segments)%Z) by lia. destruct (arc_spec _ _ _ _ Hs0 Ha) as [Hl Hn].
+  assert (E : Reqb 90 360 = false) by (apply Reqb_false; lra). rewrite E in Hl. split; [exact Hl|].
+  rewrite Hn by exact Hi. set (t := IZR (Z.of_nat i) * 90 / IZR segments).
+  assert (Hseg : 1 <= IZR segments) by (apply IZR_le; exact Hs).
+  assert (Hi' : 0 <= IZR (Z.of_nat i) <= IZR segments) by (split; apply IZR_le; lia).
+  assert (Ht : 0 <= t <= 90).
+  { unfold t. split; [apply Rmult_le_pos; [nra|left; apply Rinv_0_lt_compat; lra]|].
+    apply (Rmult_le_reg_r (IZR segments)); [lra|]. unfold Rdiv. rewrite Rmult_assoc, Rinv_l by lra. nra. }
+  destruct (quarter_trig t Ht) as [Hsn Hcs]. exists (dcos t), (dsin t). split; [exact Hcs|]. split; [exact Hsn|]. split; [apply dsin2_dcos2|].
+  replace (IZR (Z.of_nat i) * - (90) / IZR segments) with (- t) by (unfold t; field; lra).
+  rewrite pt2_rotated_spec. unfold R2_spec. rewrite dcos_neg, dsin_neg. destruct start as [sx sy]. dred. f_equal; ring.
+Qed.
+
+Definition in_box (lo_x lo_y hi_x hi_y : R) (p : P2) : Prop := lo_x <= x2 p <= hi_x /\ lo_y <= y2 p <= hi_y.
+
+Theorem rounded_rect_box (w h r : R) (segments : Z) pts : 0 < r -> 2 * r <= w -> 2 * r <= h -> (1 <= segments)%Z ->
+  rounded_rect w h r segments false = Some pts ->
+  length pts = (4 * Z.to_nat (segments + 1))%nat /\
+  Forall (in_box 0 0 w h) pts /\
+  (* it touches all four sides: the first point of each corner arc *)
+  In (Pt2 (w - r) h) pts /\ In (Pt2 w r) pts /\ In (Pt2 r 0) pts /\ In (Pt2 0 (h - r)) pts.
+Proof.
+  intros Hr Hw Hh Hs. unfold rounded_rect. cbn [nzero nofZ nneg nsub NumR].
+  destruct (arc (Pt2 0 r) 90 segments) as [tr|] eqn:Etr; [|discriminate]. destruct (arc (Pt2 r 0) 90 segments) as [br|] eqn:Ebr; [|discriminate].
+  destruct (arc (Pt2 (- 0) (- r)) 90 segments) as [bl|] eqn:Ebl; [|discriminate]. destruct (arc (Pt2 (- r) 0) 90 segments) as [tl|] eqn:Etl; [|discriminate].
+  intros E. inversion E as [Hp]. clear E Hp.
+  assert (Q : forall start a, arc start 90 segments = Some a -> length a = Z.to_nat (segments + 1) /\
+            forall p, In p a -> exists c s, 0 <= c <= 1 /\ 0 <= s <= 1 /\ s * s + c * c = 1 /\ p = Pt2 (x2 start * c + y2 start * s) (y2 start * c - x2 start * s)).
+  { intros start a Ha. assert (Hlen : length a = Z.to_nat (segments + 1)).
+    { assert (Hs0 : (0 <= segments)%Z) by lia. destruct (arc_spec _ _ _ _ Hs0 Ha) as [Hl _]. assert (E : Reqb 90 360 = false) by (apply Reqb_false; lra). rewrite E in Hl. exact Hl. }
+    split; [exact Hlen|]. intros p Hp. apply (In_nth _ _ start) in Hp. destruct Hp as (i & Hi & <-).
+    destruct (quarter_arc_nth start segments a i Hs Ha Hi) as [_ HH]. exact HH. }
+  assert (F0 : forall a start, arc start 90 segments = Some a -> nth 0 a start = start).
+  { intros a start Ha. assert (Hs0 : (0 <= segments)%Z) by lia. destruct (arc_spec _ _ _ _ Hs0 Ha) as [Hl Hn]. assert (E : Reqb 90 360 = false) by (apply Reqb_false; lra). rewrite E in Hl.
+    rewrite Hn by lia. cbn [Z.of_nat]. replace (0 * - (90) / IZR segments) with 0 by (unfold Rdiv; ring). destruct (rot_zero (Pt3 0 0 0) start) as (_ & _ & _ & H0). exact H0. }
+  assert (First : forall a start, arc start 90 segments = Some a -> In start a).
+  { intros a start Ha. rewrite <- (F0 a start Ha). apply nth_In. destruct (Q start a Ha) as [Hl _]. lia. }
+  destruct (Q _ _ Etr) as [Ltr Ptr]. destruct (Q _ _ Ebr) as [Lbr Pbr]. destruct (Q _ _ Ebl) as [Lbl Pbl]. destruct (Q _ _ Etl) as [Ltl Ptl].
+  unfold pt2s_translate. split; [rewrite !app_length, !map_length; lia|]. split.
+  - repeat (apply Forall_app; split); rewrite Forall_map, Forall_forall; intros p Hp.
+    + destruct (Ptr p Hp) as (c & s & Hc & Hsn & _ & ->). unfold in_box, pt2_add. cbn [x2 y2 nadd NumR]. nra.
+    + destruct (Pbr p Hp) as (c & s & Hc & Hsn & _ & ->). unfold in_box, pt2_add. cbn [x2 y2 nadd NumR]. nra.
+    + destruct (Pbl p Hp) as (c & s & Hc & Hsn & _ & ->). unfold in_box, pt2_add. cbn [x2 y2 nadd NumR]. nra.
+    + destruct (Ptl p Hp) as (c & s & Hc & Hsn & _ & ->). unfold in_box, pt2_add. cbn [x2 y2 nadd NumR]. nra.
+  - assert (T1 : In (pt2_add (Pt2 0 r) (Pt2 (w - r) (h - r))) (map (fun q : P2 => pt2_add q (Pt2 (w - r) (h - r))) tr)) by (apply (in_map (fun q : P2 => pt2_add q (Pt2 (w - r) (h - r))) tr (Pt2 0 r)), First; exact Etr).
+    assert (T2 : In (pt2_add (Pt2 r 0) (Pt2 (w - r) r)) (map (fun q : P2 => pt2_add q (Pt2 (w - r) r)) br)) by (apply (in_map (fun q : P2 => pt2_add q (Pt2 (w - r) r)) br (Pt2 r 0)), First; exact Ebr).
+    assert (T3 : In (pt2_add (Pt2 (- 0) (- r)) (Pt2 r r)) (map (fun q : P2 => pt2_add q (Pt2 r r)) bl)) by (apply (in_map (fun q : P2 => pt2_add q (Pt2 r r)) bl (Pt2 (- 0) (- r))), First; exact Ebl).
+    assert (T4 : In (pt2_add (Pt2 (- r) 0) (Pt2 r (h - r))) (map (fun q : P2 => pt2_add q (Pt2 r (h - r))) tl)) by (apply (in_map (fun q : P2 => pt2_add q (Pt2 r (h - r))) tl (Pt2 (- r) 0)), First; exact Etl).
+    unfold pt2_add in T1, T2, T3, T4. cbn [x2 y2 nadd NumR] in T1, T2, T3, T4.
+    replace (0 + (w - r)) with (w - r) in T1 by ring. replace (r + (h - r)) with h in T1 by ring.
+    replace (r + (w - r)) with w in T2 by ring. replace (0 + r) with r in T2 by ring.
+    replace (- 0 + r) with r in T3 by ring. replace (- r + r) with 0 in T3, T4 by ring. replace (0 + (h - r)) with (h - r) in T4 by ring.
+    repeat split; rewrite !in_app_iff; tauto.
+Qed.
